@@ -56,7 +56,11 @@ TOL = {
     "analytical": dict(scalar=1e-8, vector=1e-5, rigid=1e-5, exc_scalar=1e-7, exc_vector=1e-6),
     "semi_numerical": dict(scalar=1e-8, vector=1e-5, rigid=1e-5, exc_scalar=1e-7, exc_vector=1e-6),
 }
-DUP_TOL = 1e-10  # the same geometry at another batch position (reached by another generator word)
+# the same geometry at another batch position (reached by another generator word).  autodiff: 10 x scf_eps (measured
+# 1.4e-14).  analytical / semi-numerical: the central difference of the overlap (step 1e-5 A) amplifies last-bit
+# differences of vectorised libm calls between batch positions, unit roundoff x |beta S| (<= 100 eV) / 1e-5 A ~ 1e-9
+# (measured 3.2e-10), hence 1e-8.
+DUP_TOL = {"autodiff": 1e-10, "analytical": 1e-8, "semi_numerical": 1e-8}
 D_ELEMENTS = set(range(13, 18)) | set(range(21, 30)) | set(range(33, 36)) | set(range(39, 48)) | set(range(51, 54)) | {57} | set(range(71, 80))
 POLE_Z_ANGLE = 1.0e-6  # neighbourhood of the z pole of the polar-angle frame of the d-orbital code (error ~ 3e-14/angle)
 
@@ -399,7 +403,7 @@ def run(chk, tier, seed):
                     dup_max = max(dup_max, dE, dF)
                     if not same:
                         chk.harness_error(f"{k}: {lab} geometry differs from the tree geometry")
-                    if max(dE, dF) > DUP_TOL:
+                    if max(dE, dF) > DUP_TOL[c["mode"]]:
                         chk.violation(dict(molecule=c["mol"], method=c["method"], force_mode=c["mode"], excited=c["exc"] or "none",
                                            kind="path", family="dup", state=lab, err=float(max(dE, dF)), frozen_x=False, pole_z=False),
                                       f"{k} {lab}: the same geometry reached by two generator words gives different results "
